@@ -20,7 +20,7 @@ RULE = ("endings = {orderly release, close (FIN and RST) after every byte offset
 ASSUMPTIONS = ["'at quiescence' = after the disconnect hook was observed and the worker/selector slot count settled, awaited with a 10 s watchdog (expiry = inconclusive unless a server thread died)",
                "connections whose handshake was refused are only required to see <= 1 hook call and a closed socket"]
 REQUIRED_REACH = ["oneway_calls_on_session_instances", "racing_first_trackings", "big_request_endings", "tls_daemon_shards", "server_ended_with_lingering_client", "ending_ok", "offset_endings", "resources_closed_once", "session_instances_dropped", "witness_unaffected", "timeout_endings", "security_endings", "callback_endings", "churn_connections_checked", "injected_yields", "application_hooks_that_raised", "resources_tracked_by_oneway_calls", "slow_hook_cases_ok"]
-SHARD_TIMEOUT = {"quick": 240, "thorough": 3000}
+SHARD_TIMEOUT = {"quick": 480, "thorough": 3000}
 
 
 class Res(object):
